@@ -614,11 +614,8 @@ def sim_open(file, mode="r", *args, **kwargs):
     real = builtins.open(file, mode, *args, **kwargs)
     if (_sim() is not None or PROXY_FILES["on"]) and mode == "rb" \
             and isinstance(file, str):
-        import io as _io
-        if isinstance(real, _io.RawIOBase):
-            # unbuffered: a raw read returns whatever is available, which on
-            # a FIFO / character device is a fragment (fault `short_read`)
-            return _FileReadProxy(real, _os.path.basename(file), raw=True)
+        # (regular files are never fragmented, buffered or not: a raw read
+        # of a regular file returns all it was asked for)
         return _FileReadProxy(real, _os.path.basename(file))
     return real
 
@@ -651,6 +648,7 @@ class _OsShim(types.ModuleType):
 
 
 SYSTEM_CALLS = []
+SYSTEM_FILES = []
 
 
 def _make_os_shim():
@@ -661,6 +659,17 @@ def _make_os_shim():
         if s is not None:
             s.step("os.system", None)
         SYSTEM_CALLS.append(cmd)
+        # what the command would have seen: the file named last on the
+        # command line, as it is NOW (the program may delete it afterwards)
+        content = None
+        try:
+            path = str(cmd).split(" ")[-1]
+            if _os.path.isfile(path):
+                with builtins.open(path, "rb") as f:
+                    content = f.read()
+        except Exception:
+            content = None
+        SYSTEM_FILES.append(content)
         return 0
 
     m.system = system
@@ -714,19 +723,51 @@ def sim_print(*args, **kwargs):
         s.note("print.err", None)
         STDERR.append(kwargs.get("sep", " ").join(map(str, args)))
         return None
-    s.step("print", None)
-    st = FILE_STALL.get("plan")
-    if st is not None:
-        st.maybe_stall(s)   # slow consumer on stdout
-    PRINTED.append(kwargs.get("sep", " ").join(map(str, args))
-                   + kwargs.get("end", "\n"))
-    me = s.me()
-    PRINT_META.append((s.seq, me.role if me is not None else "-"))
+    # through the simulated sys.stdout (one capture path for print() and
+    # for direct writes)
+    sys.stdout.write(kwargs.get("sep", " ").join(map(str, args))
+                     + kwargs.get("end", "\n"))
     return None
 
 
 STDERR = []
 PRINT_META = []   # (event seq, role) of each captured stdout line
+
+
+class _SimStdout:
+    """sys.stdout for the whole process: simulated threads' writes are
+    captured line by line (a program may print through sys.stdout.write
+    instead of print), everything else passes through."""
+
+    def __init__(self, real):
+        self._real = real
+        self._partial = {}
+
+    def write(self, text):
+        s = _sim()
+        if s is None:
+            return self._real.write(text)
+        me = s.me()
+        key = id(me)
+        buf = self._partial.get(key, "") + str(text)
+        while "\n" in buf:
+            line, buf = buf.split("\n", 1)
+            s.step("print", None)
+            st = FILE_STALL.get("plan")
+            if st is not None:
+                st.maybe_stall(s)
+            PRINTED.append(line + "\n")
+            PRINT_META.append((s.seq, me.role if me is not None else "-"))
+        self._partial[key] = buf
+        return len(text)
+
+    def flush(self):
+        if _sim() is None:
+            return self._real.flush()
+
+    def __getattr__(self, name):
+        return getattr(self._real, name)
+
 
 SCRATCH = {"dir": None, "n": 0}
 
@@ -829,6 +870,8 @@ def bind():
     for mod in (auditok.workers, auditok.cmdline, auditok.cmdline_util):
         mod.print = sim_print
         report.append((mod.__name__.split(".")[-1], "print", "capture"))
+    if not isinstance(sys.stdout, _SimStdout):
+        sys.stdout = _SimStdout(sys.stdout)
     auditok.io.open = sim_open
     report.append(("io", "open", "read proxy"))
     _BOUND["done"] = True
@@ -841,6 +884,7 @@ def reset_captures(scratch_dir=None):
     del PRINT_META[:]
     del STDERR[:]
     del SYSTEM_CALLS[:]
+    del SYSTEM_FILES[:]
     del SUBPROCESS_CALLS[:]
     del READERS[:]
     FILE_STALL["plan"] = None
